@@ -210,6 +210,8 @@ class Run:
         labels = case_labels(cases_text)
         for cid, why in dead:
             self.add_violation("implementation died", "%s: %s" % (cid, why), cases_text, cid, None)
+        if self.pid == "C20":
+            self.lockstep(cases_text, impl, model)
         for cid, m in model.items():
             i = impl.get(cid)
             if i is None:
@@ -276,6 +278,36 @@ class Run:
                 self.add_violation("predicate", "op %d: %s" % (op, text), cases_text, cid, op)
             if len(self.samples) < 3 and self.stats["cases"] % 37 == 1:
                 self.samples.append({"case": cid, "history": human_case(case_lines(cases_text, cid))[:8]})
+
+    def lockstep(self, cases_text, impl, model):
+        """C20: the span-backed and the grid-backed terminal, driven by the same history, compared directly
+        (no model): cells, cursor, saved cursor, margins, replies, registers, callback digest.  Comparison of a
+        case stops at the first operation the model marks as sanctioned/known span-only (trigger bits)."""
+        for cid in list(impl.keys()):
+            if "-k0-" not in cid:
+                continue
+            gid = cid.replace("-k0-", "-k1-")
+            if gid not in impl:
+                continue
+            a, b = impl[cid], impl[gid]
+            m = model.get(cid, {"ops": []})
+            self.stats["lockstep_pairs"] += 1
+            for k in range(min(len(a["ops"]), len(b["ops"]))):
+                if k < len(m["ops"]) and m["ops"][k][0][3]:
+                    self.known_hits["lockstep-sanctioned"] += 1
+                    break
+                self.stats["lockstep_ops"] += 1
+                bad = None
+                for ra, rb in zip(a["ops"][k], b["ops"][k]):
+                    if ra[0] in (8,):
+                        continue
+                    if ra != rb:
+                        bad = (ra, rb)
+                        break
+                if bad:
+                    self.add_violation("lockstep", "op %d: span-backed and grid-backed terminals differ in record %d (%s)" % (
+                        k, bad[0][0], REC_NAMES.get(bad[0][0], "state header")), cases_text, cid, k, expected=bad[1], actual=bad[0])
+                    break
 
     def add_violation(self, kind, desc, cases_text, cid, op, expected=None, actual=None, step=False):
         if len(self.violations) >= 25:
